@@ -56,6 +56,7 @@ JudgeOut(sc, o) ==
        If(o.package # "g" \/ o.struct # "T", Mis(sc, o, "header", <<"g", "T">>, <<o.package, o.struct>>)))
   ELSE \* a mutated text: an error, or a grammar; never a crash, never a parser without rules
     If(o.panic # "", Mis(sc, o, "mutant-panic", "", o.panic)) \o
+    If(o.panic # "", [Mis(sc, o, "front-end-panics-on-text", "", o.panic) EXCEPT !.prop = "C13"]) \o
     If(o.panic = "" /\ o.ok /\ o.nrules = 0, Mis(sc, o, "mutant-empty-parser", "error or rules", 0))
 RECURSIVE JudgeOuts(_, _, _)
 JudgeOuts(sc, outs, k) == IF k > Len(outs) THEN <<>> ELSE JudgeOut(sc, outs[k]) \o JudgeOuts(sc, outs, k + 1)
